@@ -83,7 +83,7 @@ def step (st : St) (ts : List String) : St × String :=
     | some e => ({ st with reading := true, re := e, rest := st.out }, s!"ok {st.out.length}")
   | "readerf" :: es :: cuts =>
     -- the reader's peer delivers the bytes in pieces cut at the given offsets (a Socket reader; nothing to cut for the
-    -- other classes): what is read does not depend on the pieces (`AslModel.Stream.recvAll_chunks`), so as `reader`
+    -- other classes): the model has no notion of pieces — what is read must not depend on them (K only), so as `reader`
     if cuts.any (fun c => c.isEmpty ∨ c.length > 9 ∨ !c.all Char.isDigit) then (st, "bad-op") else
     if st.reading then (st, "closed") else
     match parseEndian (defaultR k) es with
